@@ -77,7 +77,7 @@ impl Sub for AssertionBinding {
       (false, Ok(_)) => vio!("C06:accepted-other-assertion:{}:{}", p.label(), s.layer.label(); "token built with assertion {:?} accepted under {:?} (footer {:?}, token {})", a, a2, s.footer, t),
     }
     // (2) the assertion is not stored: same length as the token built without it, and its bytes do not occur
-    if !norm(&a).is_empty() {
+    if !norm(&a).is_empty() && norm(&a).len() >= 8 {
       let mut bare = s.clone();
       bare.assertion = None;
       if let Ok(t0) = bare.token() {
@@ -154,6 +154,7 @@ fn case(proto: Proto, layer: Layer) -> BoxedStrategy<AssertCase> {
     2 => any::<u8>().prop_map(Related::Prefix),
     2 => gen::jsonish(4).prop_map(Related::Extend),
     1 => Just(Related::CaseFlip),
+    3 => (0u8..8).prop_map(Related::Confusable),
     2 => any::<u8>().prop_map(Related::LastByte),
     2 => prop_oneof![gen::jsonish(16), gen::unicode(6)].prop_map(Related::Other),
     3 => (any::<bool>(), any::<u8>()).prop_map(|(a, i)| Related::Decorate(a, i)),
@@ -182,6 +183,26 @@ pub fn run(ctx: &Ctx) -> EvidenceMeta {
   for s in &subs {
     let n = (ctx.n(8000, 80_000) / s.proto.cost().min(20)).max(300);
     jobs.push(Box::new(move || ctx.prop(s, case(s.proto, s.layer), n)));
+  }
+  // assertions that are the shortest texts of other notations - an empty JSON object or list, null, a quoted empty string, a
+  // blank - verbatim (no tag), against none / the empty one / each other: they are assertions like any other
+  for s in &subs {
+    jobs.push(Box::new(move || {
+      let mut cases = vec![];
+      let texts = ["{}", "[]", "{ }", "null", "\"\"", "0", "false", " ", "\u{0}", "a"];
+      for (i, a) in texts.iter().enumerate() {
+        let mut tok = crate::c03::fixed_spec(s.proto, s.layer, (i % 4) as u8);
+        tok.assertion = Some(a.to_string());
+        let mut rels = vec![Related::Same, Related::None, Related::Empty];
+        for other in texts.iter().filter(|o| *o != a) {
+          rels.push(Related::Other(other.to_string()));
+        }
+        for rel in rels {
+          cases.push(AssertCase { tok: tok.clone(), tag: String::new(), rel, split: i as u8 });
+        }
+      }
+      ctx.enumerate(s, cases.into_iter(), false)
+    }));
   }
   run_jobs(jobs);
   EvidenceMeta {
